@@ -266,3 +266,15 @@ _add("C13", "text", "The production path annet.gen._old_new_per_device is driven
 _add("C13", "note", "Third-party known findings (jsonpatch cross-container move; array elements differing only in JSON type).", replace="Known gap: --acl-safe together with --filter-acl through annet.gen._old_new_per_device's file branch is not driven.")
 _add("C08", "text", "Every fifth ordered configuration is what the production worker of annet gen (annet.gen.worker) prints, read back.")
 _add("C16", "text", "What the production worker of annet patch prints (res_diff_patch / _patch_worker) is compared with device mode on the same pair.")
+# ---- round 7
+_add("C01", "text", "Catalogue entry `flat` holds a rule written in the negated form whose next word begins with letters of the negation word (`<Prefix> nx *`).")
+_add("C03", "text", "annet diff over several devices: gen_sort_diff is collected first and rendered afterwards (with and without collapsing equal diffs); every device's text is judged as its own diff view.")
+_add("C04", "text", "Forked children (processes that have not formatted anything yet) go through the formatter families in other orders (nokia before juniper, b4com before cisco, ...).")
+_add("C09", "text", "A synthetic deploy rule has dialog lines that differ only in blanks / letter case (each keeps its answer); models that write straight into the running configuration (S-series, H3C, classic IOS, NX-OS, B4T-CS2148P) never get a commit command.")
+_add("C11", "text", "Huawei VLANs declared only by a bare `vlan N` (in no batch line).")
+_add("C16", "text", "Every third pair of dump files carries a common leading offset on every line.")
+_add("C17", "text", "The production path is also run on a blank device (--config empty).")
+_add("C19", "text", "Generator class names may collide (results are keyed by path and decided by priority).")
+_add("C20", "text", "Jobs with --filter-acl <dir> (one ACL file per device, the worker's shared stdin dict).")
+_add("C07", "note", "Known gap: a `~` glued to the preceding text of a word (`name:~`) is outside the token language.")
+_add("C15", "note", "Known gap: topologies in which one device has two neighbours with the same short name (match_short_name) are not built.")
